@@ -354,6 +354,16 @@ def check_kernel(ctx, o, env, e, v, axis, ext, kexpr, key, bounds=None):
             coords = [x for k, x in enumerate(LOGI[:ldim]) if k != axis]
             floats = bool(sympy.sympify(kexpr).atoms(sympy.Float)) or env.mtype == 'czarnyf'
             ok = same_value(truth, got, coords or [LOGI[0]], rng, numeric=True, tol=1e-9 if floats else 1e-35)
+            if ok is True and coords and (key or rng.random() < 0.4):
+                # the identity holds at every logical point, also at negative logical coordinates (a patch
+                # [-2,-1] x [0,pi/2] of a polar mapping is regular): same_value samples positive points only, so
+                # compare once more with some coordinates reflected (seeded change C04-7 took sqrt(x1**2) = x1)
+                refl = [x for x in coords if rng.random() < 0.6] or [coords[0]]
+                sub = {x: -x for x in refl}
+                ok2 = same_value(truth.subs(sub), sympy.sympify(got).subs(sub), coords, rng, numeric=True, tol=1e-9 if floats else 1e-35)
+                o.count('reflected-point:%s' % ok2)
+                if ok2 is False:
+                    ok = False
     except (Timeout, NotImplementedError) as ex:
         o.count('skipped:' + type(ex).__name__)
         return
